@@ -161,11 +161,14 @@ theorem mayLoop_congr (x : Ctx) : ∀ (ts : List Trans) (s : St),
   | cons t r ih =>
     intro s
     unfold mayLoop
-    cases hdest : t.dest with
-    | none => simp only [h.prepareEvent, h.onException, ih]
-    | some d =>
-      rcases h.state_cases d with ⟨ha, hb⟩ | ⟨_, _, ha, hb, _⟩ <;>
-        simp only [ha, hb, Option.isSome_none, Option.isSome_some, h.prepareEvent, h.onException, ih]
+    have hdo : destOk a t = destOk b t := by
+      unfold destOk
+      cases hdest : t.dest with
+      | none => rfl
+      | some d =>
+        rcases h.state_cases d with ⟨ha, hb⟩ | ⟨_, _, ha, hb, _⟩ <;>
+          simp only [ha, hb, Option.isSome_none, Option.isSome_some]
+    simp only [hdo, h.prepareEvent, h.onException, ih]
 
 theorem canTrigger_congr (m ev tag : Nat) (s : St) :
     canTrigger sub sc a m ev tag s = canTrigger sub sc b m ev tag s := by
